@@ -18,7 +18,7 @@
 (* One rule per operator handler.  Rules marked ADOPTED follow the pinned  *)
 (* implementation where the documentation is silent.                       *)
 (***************************************************************************)
-EXTENDS Values
+EXTENDS Order
 
 \* Named deviations of the pinned implementation from the reference semantics (known findings, see
 \* /verif/known_findings.json).  Dev = {} is the reference; conformance runs enable the listed ones.
@@ -52,10 +52,12 @@ EUpdate(l, r)  == [op |-> "ASSIGN", l |-> l, r |-> r, update |-> TRUE]
 EDelete(e)     == [op |-> "DELETE_CHILD", r |-> e]
 
 \* ---------------------------------------------------------------- items and state
+\* an item is a node INSIDE the document (position path p) or a node inside a detached tree produced by an operator
+\* (tree value v, position sub within it; sub = <<>> is the detached value itself)
 InDoc(p)  == [in |-> TRUE,  p |-> p]
-Det(v)    == [in |-> FALSE, v |-> v]
-ValOf(doc, c) == IF c.in THEN Get(doc, c.p) ELSE c.v
-Live(doc, c) == ~c.in \/ Exists(doc, c.p)
+Det(v)    == [in |-> FALSE, v |-> v, sub |-> <<>>]
+ValOf(doc, c) == IF c.in THEN Get(doc, c.p) ELSE Get(c.v, c.sub)
+Live(doc, c) == IF c.in THEN Exists(doc, c.p) ELSE Exists(c.v, c.sub)
 
 \* tog: the root document carries EvaluateTogether (eval-all mode); it matters only while the context is the root itself
 St(doc, ctx, ro) == [doc |-> doc, ctx |-> ctx, ro |-> ro, st |-> "ok", env |-> <<>>, tog |-> FALSE]
@@ -63,12 +65,12 @@ KindClass(v) == IF IsScalar(v) THEN "scalar" ELSE v.k
 Together(s) == s.tog /\ s.ctx # <<>> /\ \A i \in DOMAIN s.ctx : s.ctx[i].in /\ s.ctx[i].p = <<>>
 \* copies of the root keep the flag in the implementation; the model does not track copies, so a context holding a
 \* detached value of the root's kind class MAY be together: left open
-MaybeTog(s) == s.tog /\ \E i \in DOMAIN s.ctx : ~s.ctx[i].in /\ KindClass(s.ctx[i].v) = KindClass(s.doc)
+MaybeTog(s) == s.tog /\ \E i \in DOMAIN s.ctx : ~s.ctx[i].in /\ KindClass(ValOf(s.doc, s.ctx[i])) = KindClass(s.doc)
 Fail(s, why) == [s EXCEPT !.st = why, !.ctx = <<>>]
 Ok(s) == s.st = "ok"
 Vals(s) == [i \in DOMAIN s.ctx |-> ValOf(s.doc, s.ctx[i])]
 Dets(vs) == [i \in DOMAIN vs |-> Det(vs[i])]
-Child(c, v, pe) == IF c.in THEN InDoc(Append(c.p, pe)) ELSE Det(IF pe.t = "k" THEN MapGet(v, pe.key) ELSE v.e[pe.idx + 1])
+Child(c, v, pe) == IF c.in THEN InDoc(Append(c.p, pe)) ELSE [c EXCEPT !.sub = Append(@, pe)]
 
 \* Fold a per-node rule over the context.  step(acc, c) returns the new accumulator state
 \* (it appends its results to acc.ctx and threads acc.doc); a failure stops the fold.
@@ -105,13 +107,16 @@ SplatNode(acc, c) ==
     [] OTHER -> acc
 
 \* `.[i, j, ...]` on one node; idxs is a sequence of scalar Values
+RECURSIVE IndexNode(_,_,_)
 IndexNode(acc, c, idxs) ==
   LET v0 == ValOf(acc.doc, c) IN
   IF idxs = <<>> THEN SplatNode(acc, c)
   ELSE IF v0.k = "null" THEN
        (IF acc.ro THEN acc                                                \* read-only: a null has no entries
         ELSE IF ~c.in THEN Fail(acc, "unspec")
-        ELSE Fail(acc, "unspec"))                                         \* writable: null becomes [] / {} and is then indexed (assignment paths: Assign rules)
+        ELSE IF idxs[1].k = "num" /\ idxs[1].int THEN IndexNode([acc EXCEPT !.doc = Replace(acc.doc, c.p, SeqV(<<>>))], c, idxs)   \* writable: null becomes []
+        ELSE IF idxs[1].k = "str" THEN IndexNode([acc EXCEPT !.doc = Replace(acc.doc, c.p, MapV(<<>>))], c, idxs)                \* ... or {}
+        ELSE Fail(acc, "unspec"))
   ELSE IF v0.k = "seq" THEN
     FoldLeft(LAMBDA a, ix :
         IF ~Ok(a) THEN a
@@ -599,8 +604,102 @@ Ev(e, s) ==
                            Acc0, Src.ctx))
     [] OTHER -> EvMore(e, s)
 
-\* assignment, delete and the remaining operators
-EvMore(e, s) == Fail(s, "unspec")
+\* ---------------------------------------------------------------- assignment, delete, path (C02, C03, C16)
+\* delete a set of positions from a value: exactly those entries disappear, every other entry keeps value and order
+DelPaths(v, P) ==
+  FoldLeft(LAMBDA acc, p : IF p # <<>> /\ p \in P /\ Exists(acc, p) THEN DelAt(acc, p) ELSE acc, v, RevSeq(Paths(v)))
+
+\* the arithmetic behind `op=`
+CompoundOp(op, a, b) == CASE op = "ADD_ASSIGN" -> AddVals(Some(a), Some(b)) [] op = "SUBTRACT_ASSIGN" -> SubVals(Some(a), Some(b))
+                          [] OTHER -> (IF b.k = "null" THEN R(a) ELSE IF IsContainer(a) \/ IsContainer(b) THEN RUnspec ELSE IF a.k = "null" THEN RErr ELSE MulScalars(a, b))
+
+EvMore(e, s) ==
+  CASE e.op = "ASSIGN" /\ ~e.update ->
+         \* `l = r`: the LHS is evaluated writable (missing maps / sequence slots are created), then every match takes
+         \* the value of every RHS result in turn (LHS-major; the last one stays); the context is returned
+         LET L == Ev(e.l, s) IN IF ~Ok(L) THEN L ELSE
+         IF \E i \in DOMAIN L.ctx : ~L.ctx[i].in THEN Fail(s, "unspec")                      \* assigning into a detached value
+         ELSE \* the product is taken per context node: LHS and RHS are re-evaluated read-only relative to that node
+              LET done == FoldLeft(LAMBDA acc0, c : IF ~Ok(acc0) THEN acc0 ELSE
+                            LET Lc == Ev(e.l, RO([s EXCEPT !.doc = acc0.doc, !.ctx = <<c>>])) IN
+                            IF ~Ok(Lc) THEN Lc
+                            ELSE IF \E i \in DOMAIN Lc.ctx : ~Lc.ctx[i].in THEN Fail(acc0, "unspec")
+                            ELSE FoldLeft(LAMBDA acc, li : IF ~Ok(acc) THEN acc ELSE
+                                   LET Rr == Ev(e.r, RO([s EXCEPT !.doc = acc.doc, !.ctx = <<c>>])) IN
+                                   IF ~Ok(Rr) THEN Rr
+                                   ELSE IF \E j \in DOMAIN Rr.ctx : Rr.ctx[j].in /\ Rr.ctx[j].p # Lc.ctx[li].p /\ IsPathPrefix(Rr.ctx[j].p, Lc.ctx[li].p) THEN Fail(acc, "unspec")   \* a value assigned into itself
+                                   ELSE FoldLeft(LAMBDA a2, rj : [a2 EXCEPT !.doc = IF Exists(a2.doc, Lc.ctx[li].p) THEN Replace(a2.doc, Lc.ctx[li].p, ValOf(a2.doc, rj)) ELSE a2.doc],
+                                                 [acc EXCEPT !.doc = Rr.doc], Rr.ctx),
+                                 [acc0 EXCEPT !.doc = Lc.doc], Upto(Len(Lc.ctx))),
+                          [s EXCEPT !.doc = L.doc], s.ctx)
+              IN IF ~Ok(done) THEN done ELSE [s EXCEPT !.doc = done.doc]
+    [] e.op = "ASSIGN" /\ e.update ->
+         \* `l |= r`: matches are processed back to front, each takes the FIRST result of r evaluated on itself
+         LET L == Ev(e.l, s) IN IF ~Ok(L) THEN L ELSE
+         IF \E i \in DOMAIN L.ctx : ~L.ctx[i].in THEN Fail(s, "unspec")
+         ELSE LET done == FoldLeft(LAMBDA acc, li : IF ~Ok(acc) THEN acc
+                                ELSE IF ~Exists(acc.doc, L.ctx[li].p) THEN acc
+                                ELSE LET Rr == Ev(e.r, [s EXCEPT !.doc = acc.doc, !.ctx = <<L.ctx[li]>>]) IN
+                                     IF ~Ok(Rr) THEN Rr
+                                     ELSE IF Rr.ctx = <<>> THEN [acc EXCEPT !.doc = Rr.doc]
+                                     ELSE [acc EXCEPT !.doc = IF Exists(Rr.doc, L.ctx[li].p) THEN Replace(Rr.doc, L.ctx[li].p, ValOf(Rr.doc, Rr.ctx[1])) ELSE Rr.doc],
+                              [s EXCEPT !.doc = L.doc], RevSeq(Upto(Len(L.ctx))))
+              IN IF ~Ok(done) THEN done ELSE [s EXCEPT !.doc = done.doc]
+    [] e.op \in {"ADD_ASSIGN", "SUBTRACT_ASSIGN", "MULTIPLY_ASSIGN"} ->
+         \* `l op= r`: every match m takes `m op x` for the results x of r (evaluated on the context, read-only); last stays
+         LET L == Ev(e.l, s) IN IF ~Ok(L) THEN L ELSE
+         IF \E i \in DOMAIN L.ctx : ~L.ctx[i].in THEN Fail(s, "unspec")
+         ELSE IF Len(s.ctx) # 1 THEN Fail(s, "unspec")
+         ELSE LET done == FoldLeft(LAMBDA acc, li : IF ~Ok(acc) THEN acc
+                                ELSE IF ~Exists(acc.doc, L.ctx[li].p) THEN acc
+                                ELSE LET m0 == ValOf(acc.doc, L.ctx[li])
+                                         Rr == Ev(e.r, RO([s EXCEPT !.doc = acc.doc])) IN
+                                     IF ~Ok(Rr) THEN Rr
+                                     ELSE FoldLeft(LAMBDA a2, rj : IF ~Ok(a2) THEN a2 ELSE
+                                                     LET o == CompoundOp(e.op, m0, ValOf(a2.doc, rj)) IN
+                                                     IF o.t = "err" THEN Fail(a2, "err") ELSE IF o.t # "val" THEN Fail(a2, "unspec")
+                                                     ELSE [a2 EXCEPT !.doc = Replace(a2.doc, L.ctx[li].p, o.v)],
+                                                   [acc EXCEPT !.doc = Rr.doc], Rr.ctx),
+                              [s EXCEPT !.doc = L.doc], Upto(Len(L.ctx)))
+              IN IF ~Ok(done) THEN done ELSE [s EXCEPT !.doc = done.doc]
+    [] e.op = "DELETE_CHILD" ->
+         \* `del(sel)`: the selection is evaluated read-only on the whole context; precisely the selected nodes disappear
+         \* (from the document, or from the detached container they sit in); the context is returned
+         LET Sel == Ev(e.r, RO(s)) IN IF ~Ok(Sel) THEN Sel ELSE
+         IF \E i \in DOMAIN Sel.ctx : (IF Sel.ctx[i].in THEN Sel.ctx[i].p = <<>> ELSE Sel.ctx[i].sub = <<>>) THEN Fail(s, "unspec")    \* deleting a top-level node
+         ELSE IF \E i, j \in DOMAIN s.ctx : i # j /\ ~s.ctx[i].in /\ ~s.ctx[j].in /\ s.ctx[i].v = s.ctx[j].v THEN Fail(s, "unspec")
+         ELSE LET docP == {Sel.ctx[i].p : i \in {j \in DOMAIN Sel.ctx : Sel.ctx[j].in}}
+                  detP(c) == {Sel.ctx[i].sub : i \in {j \in DOMAIN Sel.ctx : ~Sel.ctx[j].in /\ Sel.ctx[j].v = c.v}}
+              IN [s EXCEPT !.doc = DelPaths(Sel.doc, docP),
+                           !.ctx = [i \in DOMAIN s.ctx |-> IF s.ctx[i].in THEN s.ctx[i] ELSE [s.ctx[i] EXCEPT !.v = DelPaths(@, detP(s.ctx[i]))]]]
+    [] e.op = "GET_PATH" ->
+         IF \E i \in DOMAIN s.ctx : ~s.ctx[i].in THEN Fail(s, "unspec")                     \* detached nodes: only the relative law of C16 applies
+         ELSE [s EXCEPT !.ctx = [i \in DOMAIN s.ctx |-> Det(SeqV([j \in DOMAIN s.ctx[i].p |-> IF s.ctx[i].p[j].t = "k" THEN StrV(s.ctx[i].p[j].key) ELSE IntV(s.ctx[i].p[j].idx)]))]]
+    [] e.op = "GET_KEY" ->
+         IF \E i \in DOMAIN s.ctx : ~s.ctx[i].in THEN Fail(s, "unspec")
+         ELSE [s EXCEPT !.ctx = FlatMap(LAMBDA c : IF c.p = <<>> THEN <<>> ELSE LET l == c.p[Len(c.p)] IN <<Det(IF l.t = "k" THEN StrV(l.key) ELSE IntV(l.idx))>>, s.ctx)]
+    [] e.op = "GET_PARENT" ->
+         IF \E i \in DOMAIN s.ctx : ~s.ctx[i].in THEN Fail(s, "unspec")
+         ELSE [s EXCEPT !.ctx = FlatMap(LAMBDA c : IF c.p = <<>> THEN <<>> ELSE <<InDoc(SubSeq(c.p, 1, Len(c.p) - 1))>>, s.ctx)]
+    [] e.op \in {"SORT", "SORT_BY"} ->
+         \* Order.tla (C15): stable sort of a sequence by the value itself / by the first result of the key expression
+         PerNode(s, LAMBDA acc, c :
+            LET v == ValOf(acc.doc, c) IN
+            IF IsScalar(v) THEN Fail(acc, "err") ELSE IF v.k = "map" THEN Fail(acc, "unspec") ELSE
+            LET keyExp == IF e.op = "SORT" THEN ESelf ELSE e.r
+                ks == FoldLeft(LAMBDA a, i : IF a.st # "ok" THEN a ELSE
+                                LET r == Ev(keyExp, RO([s EXCEPT !.ctx = <<Child(c, v, PI(i - 1))>>, !.doc = a.doc])) IN
+                                IF ~Ok(r) THEN [a EXCEPT !.st = r.st] ELSE IF Len(r.ctx) > 1 THEN [a EXCEPT !.st = "unspec"]
+                                ELSE [a EXCEPT !.doc = r.doc, !.keys = Append(@, KeyOf(r.ctx, r.doc))],
+                             [st |-> "ok", doc |-> acc.doc, keys |-> <<>>], Upto(Len(v.e))) IN
+            IF ks.st # "ok" THEN Fail(acc, ks.st)
+            ELSE IF \E i \in DOMAIN ks.keys : IsContainer(ks.keys[i]) THEN Fail(acc, "unspec")          \* containers as sort keys
+            ELSE IF (\E i \in DOMAIN ks.keys : ks.keys[i].k = "num") /\ (\E i \in DOMAIN ks.keys : ks.keys[i].k = "str") THEN Fail(acc, "unspec")
+            ELSE LET pairs == [i \in DOMAIN v.e |-> <<ks.keys[i], i>>]
+                     sorted == SortBy(pairs, LAMBDA pr : pr[1], Leq)
+                     vNow == ValOf(ks.doc, c)
+                 IN Emit([acc EXCEPT !.doc = ks.doc], <<Det(SeqV([i \in DOMAIN sorted |-> vNow.e[sorted[i][2]]]))>>))
+    [] OTHER -> Fail(s, "unspec")
 
 Run(e, doc) == Ev(e, St(doc, <<InDoc(<<>>)>>, FALSE))
 RunTog(e, doc) == Ev(e, [St(doc, <<InDoc(<<>>)>>, FALSE) EXCEPT !.tog = TRUE])
